@@ -94,6 +94,11 @@ func srvEnv(spec env.KeySpec) (*env.Env, error) {
 		return nil, err
 	}
 	e.OwnerModules = raw.OneShot(e)
+	// every key a history may ask for is made here, outside the per-case watchdog (a dozen RSA keys take many seconds on
+	// a loaded machine)
+	for _, role := range []string{"dev0", "dev1", "dev2", "dev3", "rawdi0", "rawdi1", "rawdi2", "rawdi3", "stranger", "o2", "mfg", "owner"} {
+		_ = env.Key(spec, role)
+	}
 	srvEnvs[spec.Name] = e
 	return e, nil
 }
@@ -479,6 +484,11 @@ func doHist(c *core.Ctx, cf srvCfg, h []hstep, meta string, extra core.Params) (
 	}
 	o := c.Do("srv.history", p, meta)
 	hr := lastHist
+	if o.Timeout || o.Impl == "hang" {
+		// the evaluation is still running in the background: what it has recorded so far must not be judged as a history
+		c.Fail("hang@srv.history", "no result within the watchdog's 20 s: "+p["hist"], "srv.history", p, o)
+		return o, nil
+	}
 	if strings.HasPrefix(o.Impl, "err-") {
 		c.Fail("harness:"+firstWordOf(o.Impl), o.Impl, "srv.history", p, o)
 		return o, hr
